@@ -58,7 +58,9 @@ theorem fifo_remove_keeps_order (s : State) (t : Nat) : (removeObject s t).1.que
 theorem fifo_start_keeps_order (s : State) (t now tk : Nat) :
     (autoPublish (fileStartStep s t now tk) now).queue.Sublist s.queue := by
   have : (autoPublish (fileStartStep s t now tk) now).queue = s.queue.erase t := by
-    unfold autoPublish; split <;> rfl
+    unfold autoPublish; split
+    · exact publishTry_elim (P := fun x => x.queue = s.queue.erase t) _ now rfl rfl
+    · rfl
   rw [this]; exact List.erase_sublist
 
 /-- Multiplex bound: after every operation history the number of objects in transfer in priority queue `p`
